@@ -225,6 +225,20 @@ func RunSafety(r sim.Src, mons []*sim.Mon, keepLog bool, sh Shape) *sim.World {
 			}
 		}
 	}
+	if r.Intn("dissenter", 6) == 0 {
+		// one node's application refuses every block of a drawn height although the others accept it
+		var cand []*sim.Node
+		for _, nd := range w.Nodes {
+			if nd != nil && nd.Active() {
+				cand = append(cand, nd)
+			}
+		}
+		if len(cand) > 0 {
+			nd := cand[r.Intn("dissenterid", len(cand))]
+			nd.RejectHeights = map[uint32]bool{startTip + 1 + uint32(r.Intn("dissentat", 2)): true}
+			w.Stat("dissenting_application")
+		}
+	}
 	ntx := r.Intn("inittx", 4)
 	if sh.ManyTxs {
 		ntx += 3
